@@ -66,6 +66,10 @@ def tuner_product(case, kind, attr=None, target=None):
     for t in case['tuners']:
         if t['kind'] == kind and t.get('attr') == attr and t.get('target') == target:
             p *= fr(t['value'])
+        elif t['kind'] == 'combo' and t.get('target') == target and (
+                (kind == 'rahres' and t.get('attr') == attr) or kind == 'cycle'):
+            # one effect with two modifiers on the same hardener: a resonance and the cycle time
+            p *= fr(t['value'])
     return p
 
 
@@ -248,7 +252,7 @@ class World:
                 affectee_attr_id=self.A[t['attr']], operator=ModOperator.post_mul,
                 aggregate_mode=ModAggregateMode.stack, affector_attr_id=TUNE)
         else:
-            attr = {'rahres': None, 'shift': self.SHIFT, 'cycle': CYCLE}[t['kind']]
+            attr = {'rahres': None, 'combo': None, 'shift': self.SHIFT, 'cycle': CYCLE}[t['kind']]
             if attr is None:
                 attr = self.A[t['attr']]
             mod = DogmaModifier(
@@ -258,8 +262,16 @@ class World:
                 operator=ModOperator.post_mul,
                 aggregate_mode=ModAggregateMode.stack, affector_attr_id=TUNE)
         self.next_effect += 1
+        mods = [mod]
+        if t['kind'] == 'combo':
+            mods.append(DogmaModifier(
+                affectee_filter=ModAffecteeFilter.domain_group,
+                affectee_filter_extra_arg=500 + t['target'],
+                affectee_domain=ModDomain.ship, affectee_attr_id=CYCLE,
+                operator=ModOperator.post_mul,
+                aggregate_mode=ModAggregateMode.stack, affector_attr_id=TUNE))
         eff = self.ch.mkeffect(self.next_effect, category_id=EffectCategoryId.passive,
-                               modifiers=[mod])
+                               modifiers=mods)
         tid = self.fresh_id()
         self.ch.mktype(tid, category_id=TypeCategoryId.implant,
                        attrs={TUNE: fl(t['value'])}, effects=[eff])
@@ -685,21 +697,21 @@ def gen_rah(rng, mode, odd=True):
 
 
 def gen_tuner(rng, mode, nrah, kind=None):
-    kind = kind or rng.choice(['ship', 'rahres', 'shift', 'cycle'])
+    kind = kind or rng.choice(['ship', 'rahres', 'shift', 'cycle', 'combo'])
     if mode == 'exact':
         value = rng.choice(['0.5', '0.75', '0.875', '0.5', '0.25'])
         if kind == 'cycle':
             value = rng.choice(['0.5', '2', '0.25', '4'])
-        if kind == 'rahres':
+        if kind in ('rahres', 'combo'):
             value = '1'    # keeps hardener sums above 3 (use 'ship'/'shift'/'cycle' to vary)
     else:
         value = rng.choice(['0.9', '0.75', '0.5', '%.2f' % rng.uniform(0.3, 1)])
         if kind == 'cycle':
             value = rng.choice(['0.5', '2', '0.9', '1.1', '%.2f' % rng.uniform(0.5, 2)])
-        if kind == 'rahres':
+        if kind in ('rahres', 'combo'):
             value = rng.choice(['1.02', '1.05', '0.99', '0.97'])
     t = {'kind': kind, 'attr': None, 'target': None, 'value': value}
-    if kind in ('ship', 'rahres'):
+    if kind in ('ship', 'rahres', 'combo'):
         t['attr'] = rng.randrange(4)
     if kind != 'ship':
         t['target'] = rng.randrange(nrah)
@@ -768,7 +780,7 @@ def gen_setup(rng, mode):
         return case
 
 
-OPKINDS = ['pdef', 'prah', 'ship_attr', 'rah_attr', 'shift', 'cycle', 'state', 'ship_replace',
+OPKINDS = ['pdef', 'prah', 'ship_attr', 'rah_attr', 'rah_combo', 'shift', 'cycle', 'state', 'ship_replace',
            'ship_remove_add', 'tuner-']
 
 
@@ -808,6 +820,8 @@ def gen_history(rng, mode):
                 op = [['tuner+', gen_tuner(rng, mode, n, 'ship')]]
             elif kind == 'rah_attr':
                 op = [['tuner+', gen_tuner(rng, mode, n, 'rahres')]]
+            elif kind == 'rah_combo':
+                op = [['tuner+', gen_tuner(rng, mode, n, 'combo')]]
             elif kind == 'shift':
                 op = [['tuner+', gen_tuner(rng, mode, n, 'shift')]]
             elif kind == 'cycle':
